@@ -349,6 +349,16 @@ def check_case(case, ctx):
             if diff:
                 ctx.violation('compare-reports-difference', dict(
                     w, observed=repr(diff[:3])[:300], accepted=['[]']))
+            elif len(files) > 1:
+                # each written file on its own must agree with the model too
+                for fp in files:
+                    ctx.count('monitor.compare-single-file')
+                    diff = m.compare(fp, solution=sol)
+                    if diff:
+                        ctx.violation('compare-reports-difference:single-file', dict(
+                            w, file=os.path.basename(fp), observed=repr(diff[:3])[:300],
+                            accepted=['[]']))
+                        break
         except Exception as ex:
             ctx.violation('write-raised:%s:%s' % (stage, type(ex).__name__), dict(
                 w, stage=stage, observed='%s: %s' % (type(ex).__name__, str(ex)[:200]),
